@@ -336,5 +336,15 @@ def run_cube(task):
     out['message'] = ''.join(traceback.format_exception_only(type(e), e))[:500] + traceback.format_exc()[-1500:]
   finally:
     signal.alarm(0)
+  if out['status'] == 'refuted' and out['cex'] is not None and task.get('pid'):
+    # Replay here, in the worker: the driver process must not spawn subprocesses while its pool thread forks workers
+    # (a worker forked between Popen's pipe() and the child's exec inherits the pipe's write end, and the driver then
+    # blocks on that pipe for as long as the - idle - worker lives: the hang described in DESIGN 9.2).
+    try:
+      from fvrun import driver
+      out['replay_path'] = driver.write_replay(task['pid'], task['module'], task['fn'], out['cex'], out['message'])
+      out['replay_rc'] = driver.replay_file(out['replay_path'])
+    except BaseException as e:  # pylint: disable=broad-except
+      out['replay_error'] = repr(e)[:300]
   out['wall_s'] = round(time.time() - t0, 2)
   return out
